@@ -1,7 +1,14 @@
 import Bmc.Proofs.C12
 import Bmc.Proofs.GenDec.CipherSuiteRecords
+import Bmc.Proofs.GenOrch.DetermineCipherSuite
 import Bmc.Proofs.GenOrch.RetrieveSupportedCipherSuites
+import Bmc.Proofs.GenHs.TranslatedOk
 import Bmc.Proofs.GenHs.Model
+import Bmc.Proofs.GenHs.Wrappers
+import Bmc.Proofs.GenHs.NewV2Session
+import Bmc.Proofs.GenHs.Examples
+import Bmc.Proofs.EndToEnd.HandshakeC02
+import Bmc.Proofs.EndToEnd.DiscoveryC12
 #print axioms Bmc.Proofs.C12.choose_first_supported
 #print axioms Bmc.Proofs.C12.none_supported
 #print axioms Bmc.Proofs.C12.singleton_no_discovery
@@ -13,10 +20,32 @@ import Bmc.Proofs.GenHs.Model
 #print axioms Bmc.Proofs.C12.discovery_failure_is_error
 #print axioms Bmc.Proofs.GenDec.parseCipherSuiteRecordData_gen_eq
 #print axioms Bmc.Proofs.GenDec.parseCipherSuiteRecordData_fuel
+#print axioms Bmc.Proofs.GenOrch.defaultCipherSuites_gen_eq
+#print axioms Bmc.Proofs.GenOrch.determineCipherSuite_gen_eq
+#print axioms Bmc.Proofs.GenOrch.determineCipherSuite_fuel_any
 #print axioms Bmc.Proofs.GenOrch.RetrieveSupportedCipherSuites_gen_eq
 #print axioms Bmc.Proofs.GenOrch.RetrieveSupportedCipherSuites_fuel
 #print axioms Bmc.Proofs.GenOrch.RetrieveSupportedCipherSuites_fuel_any
+#print axioms Bmc.Proofs.GenHs.translated_ok
+#print axioms Bmc.Proofs.GenHs.gaveUp_none
 #print axioms Bmc.Proofs.GenHs.stepOpen_is_checks
 #print axioms Bmc.Proofs.GenHs.stepRakp2_is_checks
 #print axioms Bmc.Proofs.GenHs.stepRakp4_is_checks
 #print axioms Bmc.Proofs.GenHs.newSession_is_hsRun
+#print axioms Bmc.Proofs.GenHs.openSession_gen_eq
+#print axioms Bmc.Proofs.GenHs.rakpMessage1_gen_eq
+#print axioms Bmc.Proofs.GenHs.rakpMessage3_gen_eq
+#print axioms Bmc.Proofs.GenHs.newV2Session_gen_eq
+#print axioms Bmc.Proofs.GenHs.newV2Session_no_suite
+#print axioms Bmc.Proofs.GenHs.newV2Session_total
+#print axioms Bmc.Proofs.GenHs.keys_view_ignores_authCode
+#print axioms Bmc.Proofs.GenHs.toy_session
+#print axioms Bmc.Proofs.GenHs.toy_wrong_code
+#print axioms Bmc.Proofs.GenHs.toy_wrong_icv
+#print axioms Bmc.Proofs.GenHs.toy_gen_eq
+#print axioms Bmc.Proofs.EndToEnd.hsRun_sound
+#print axioms Bmc.Proofs.EndToEnd.viewAnswers_honest
+#print axioms Bmc.Proofs.EndToEnd.generated_newV2Session_sound
+#print axioms Bmc.Proofs.EndToEnd.retrieveLoop_congr
+#print axioms Bmc.Proofs.EndToEnd.determineFull_congr
+#print axioms Bmc.Proofs.EndToEnd.generated_determineCipherSuite_first_preference
